@@ -833,7 +833,8 @@ func (x *Exec) contractCall(fn *ssa.Function, key string, ctr *Contract, args []
 	// callee writes some components only in objects it allocates itself: remember old contents
 	calleeFresh := x.expandKeys(ctr.Fresh)
 	// the caller promised fresh-only writes for some components: the callee must promise the same
-	if x.spec == 0 && (len(x.rootFresh) > 0 || len(x.loopFresh) > 0) && !ctr.Pure {
+	calleeArgW := x.argWriteKeys(ctr, args)
+	if x.spec == 0 && (len(x.rootFresh) > 0 || len(x.loopFresh) > 0 || len(x.rootArgW) > 0) && !ctr.Pure {
 		var cw *WriteSet
 		if ctr.Trusted || fn == nil || len(fn.Blocks) == 0 || ctr.Ext || len(ctr.Modifies) > 0 {
 			cw = newWS()
@@ -842,9 +843,26 @@ func (x *Exec) contractCall(fn *ssa.Function, key string, ctr *Contract, args []
 			cw = x.effects(fn)
 		}
 		for _, k := range cw.sortedKeys() {
-			if x.freshActive(k) && !calleeFresh[k] {
-				x.oblige(st, "frame", "", "callee "+shortKey(x.P, key)+" may write "+compShort(k)+" of existing objects (no freshwrites in its contract)", "false", pos)
+			if calleeFresh[k] {
+				continue
 			}
+			rootArg, restricted := x.rootArgW[k]
+			if !x.freshActive(k) && !restricted {
+				continue
+			}
+			if ar, ok := calleeArgW[k]; ok {
+				// the callee writes this component only inside its argument object: that object must be
+				// one this function may write (fresh here, or this function's own declared argument)
+				g := "(> " + ar + " " + x.top0 + ")"
+				if !x.freshActive(k) && restricted {
+					g = or(eq(ar, rootArg), g)
+				}
+				if !x.isFreshRef(ar) {
+					x.oblige(st, "frame", "", "callee "+shortKey(x.P, key)+" writes "+compShort(k)+" of its argument, which must be an object this function may write", g, pos)
+				}
+				continue
+			}
+			x.oblige(st, "frame", "", "callee "+shortKey(x.P, key)+" may write "+compShort(k)+" of existing objects (no freshwrites in its contract)", "false", pos)
 		}
 	}
 	topBefore := st.allocTop
@@ -880,6 +898,18 @@ func (x *Exec) contractCall(fn *ssa.Function, key string, ctr *Contract, args []
 			x.frameOld(b, a, topBefore)
 		}
 	}
+	for k, ar := range calleeArgW {
+		if calleeFresh[k] {
+			continue
+		}
+		ci := x.compInfoOfKey(k)
+		b := x.heapSym(old, k, ci)
+		a := x.heapSym(st, k, ci)
+		if a != b {
+			// objects that existed before the call, other than the argument object, keep this component
+			x.sc.emit("(assert (forall ((r Int)) (! (=> (and (<= r %s) (not (= r %s))) (= (select %s r) (select %s r))) :pattern ((select %s r)))))", topBefore, ar, x.use(a), x.use(b), x.use(a))
+		}
+	}
 	for _, lg := range ctr.Appends {
 		x.appendLog(st, lg)
 	}
@@ -901,6 +931,11 @@ func (x *Exec) contractCall(fn *ssa.Function, key string, ctr *Contract, args []
 	x.allocBase = topBefore
 	defer func() { x.allocBase = savedBase }()
 	for _, cl := range append(append([]*Clause{}, ctr.Defines...), ctr.Ensures...) {
+		if strings.HasSuffix(cl.Label, "@self") {
+			// proved for the function itself, not exported to its callers (a caller that knew it
+			// would find its own defensive error paths unreachable)
+			continue
+		}
 		for _, inst1 := range x.logicalInstances(cl) {
 			binders, inst2 := x.bindFreeLogicals(ctr, cl, inst1)
 			cargs := x.clauseArgs(ctr, cl, args, bindingVals, resList, inst2)
